@@ -7,6 +7,15 @@ BUILD = os.path.join(ROOT, "build")
 HARNESS = os.path.join(ROOT, "harness")
 REPO = os.environ.get("VERIF_REPO", "/repo")
 
+# harness binaries built against a scratch copy ($VERIF_REPO, seeded-change runs) go to build/alt so that
+# they never replace the binaries built from /repo
+BIN = BUILD if os.path.realpath(REPO) == "/repo" else os.path.join(BUILD, "alt")
+
+
+def exe(cmd):
+    return os.path.join(BIN, cmd)
+
+
 GOENV = dict(os.environ, GOFLAGS="-mod=mod", GOPROXY="off", GOSUMDB="off",
              GOTOOLCHAIN="local", CGO_ENABLED=os.environ.get("CGO_ENABLED", "0"))
 
@@ -163,7 +172,8 @@ def build_harness(cmd):
         open(alt, "w").write(mod)
         open(os.path.join(BUILD, "go.alt.sum"), "w").write(src or "")
         args += ["-modfile", alt]
-    rc, out, _ = sh(args + ["-o", os.path.join(BUILD, cmd), "./cmd/" + cmd], cwd=HARNESS, env=GOENV, timeout=900)
+    os.makedirs(BIN, exist_ok=True)
+    rc, out, _ = sh(args + ["-o", exe(cmd), "./cmd/" + cmd], cwd=HARNESS, env=GOENV, timeout=900)
     return rc == 0, out
 
 
@@ -171,7 +181,7 @@ def run_harness(cmd, args, timeout=1500, out_path=None):
     """Run a harness binary; returns (rc, stdout_text, seconds). stderr is kept apart (appended on failure)."""
     t0 = time.time()
     try:
-        p = subprocess.run([os.path.join(BUILD, cmd)] + [str(a) for a in args], stdout=subprocess.PIPE,
+        p = subprocess.run([exe(cmd)] + [str(a) for a in args], stdout=subprocess.PIPE,
                            stderr=subprocess.PIPE, timeout=timeout, env=GOENV)
         rc, out, err = p.returncode, p.stdout.decode("utf-8", "replace"), p.stderr.decode("utf-8", "replace")
     except subprocess.TimeoutExpired as e:
